@@ -338,6 +338,20 @@ example : runVar (fun _ => .upstream) State.init
      (0, .response, [⟨.proxy, .connect, false, some .proxyAuthorization⟩, ⟨.originViaTunnel, .request, false, none⟩])] := by
   decide +kernel
 
+/-- **C24 for client replay**: whatever proxy mode the flow was recorded in (it is not even an argument of the model),
+    a replayed request carries the credential only to the upstream proxy when the instance RUNS in upstream mode, or to
+    the reverse target when it runs in reverse mode and the request is addressed to that target. -/
+theorem replay_creds_confined (auth : Bool) (run : Mode) (https toTarget : Bool) :
+    ∀ w ∈ replayWrites auth run https toTarget, w.cred ≠ none → Allowed run w := by
+  cases run <;> cases https <;> cases auth <;> cases toTarget <;>
+    simp [replayWrites, requestheaders, connectUpstream, Allowed]
+
+/-- … and in every other running mode nothing carries it -/
+theorem replay_no_creds_in_other_modes (auth : Bool) (run : Mode) (https toTarget : Bool)
+    (h : run = .regular ∨ run = .transparent ∨ run = .socks5) :
+    ∀ w ∈ replayWrites auth run https toTarget, w.cred = none := by
+  rcases h with rfl | rfl | rfl <;> simp [replayWrites]
+
 /-! ## Round 3: the routing model — the connection parameters are predicted, reuse included -/
 
 section Routing
